@@ -1,9 +1,9 @@
 #ifndef VERIF_HEAP_IFACE_HPP
 #define VERIF_HEAP_IFACE_HPP
 #include <cstddef>
-// One entry per instantiation avel::Aligned_allocator<P<S>, A>.
+// One entry per instantiation avel::Aligned_allocator<P<S, TA>, A> (sizeof S, alignof TA; TA == S for the first family).
 struct HOps {
-    unsigned S, A;
+    unsigned S, A, TA;
     void* (*allocate)(std::size_t n);
     void* (*allocate_hint)(std::size_t n, const void* hint);
     void* (*allocate_rebound)(std::size_t n);      // through rebind<P<S>>::other of an allocator for another T
@@ -26,6 +26,7 @@ struct HOps {
 extern "C" {
 const HOps* heap_registry_part0(std::size_t* n); const HOps* heap_registry_part1(std::size_t* n); const HOps* heap_registry_part2(std::size_t* n);
 const HOps* heap_registry_part3(std::size_t* n); const HOps* heap_registry_part4(std::size_t* n); const HOps* heap_registry_part5(std::size_t* n);
+const HOps* heap_registry_part6(std::size_t* n); const HOps* heap_registry_part7(std::size_t* n);
 }
 const char* heap_impl_name();   // "sse" | "cxx17" | "cxx11"
 #endif
